@@ -54,7 +54,7 @@ func candidates(p, hint string) []string {
 	return out
 }
 
-var reservedForms = []string{"func", "var", "type"}
+var reservedForms = []string{"func", "var", "type", "func0", "var0", "const0", "type0"}
 
 // decorate picks the reserved names (identifiers the user declares and calls elsewhere, as a function, a
 // func-typed variable or a type used in a conversion; never names of derive calls) and the split into
@@ -71,7 +71,7 @@ func decorate(r *rand.Rand, c *Case, calls []CallSpec, prefixOf map[string]strin
 		}
 		used[n] = true
 		c.Reserved = append(c.Reserved, n)
-		c.ReservedForm = append(c.ReservedForm, reservedForms[r.Intn(3)])
+		c.ReservedForm = append(c.ReservedForm, reservedForms[r.Intn(len(reservedForms))])
 	}
 	// conflicting later calls
 	var targets []CallSpec
@@ -653,6 +653,10 @@ func weirdValues() []weirdValue {
 	for _, k := range []string{"Eq", "Cmp", "Hsh", "Srt", "X"} {
 		out = append(out, weirdValue{k, "upper", false})
 	}
+	// names under which the plugins import packages (c630945: reserved, so the bare prefix is not minted)
+	for _, k := range ImportNames {
+		out = append(out, weirdValue{k, "import", false})
+	}
 	return out
 }
 
@@ -701,6 +705,14 @@ func WeirdC12(r *rand.Rand, n int) []*Case {
 				// the witness of known finding F49: the helper `h` of the hash plugin is shadowed by a local
 				ov["hash"] = "h"
 				used = []string{"hash"}
+			} else if g == 2 {
+				// F86: hash=sort needs a helper; next to a deriveSort call the file imports package sort
+				ov["hash"] = "sort"
+				used = []string{"hash", "sort"}
+			} else if g == 3 {
+				// F86: compare=strings: the helper for the int field next to strings.Compare
+				ov["compare"] = "strings"
+				used = []string{"compare"}
 			} else if g%8 == 7 {
 				// swapped defaults
 				sw := swaps[r.Intn(len(swaps))]
@@ -767,8 +779,8 @@ func WeirdC12(r *rand.Rand, n int) []*Case {
 				ts = deep[p]
 			}
 			ty := ts[r.Intn(len(ts))]
-			if g == 1 {
-				ty = 0
+			if g == 1 || g == 2 || g == 3 {
+				ty = ts[0]
 			}
 			pcs = append(pcs, pc{p, suffixes[r.Intn(len(suffixes))], ty})
 		}
@@ -905,5 +917,58 @@ func PendingC11() []*Case {
 			out = append(out, c)
 		}
 	}
+	return out
+}
+
+// AutonameAcrossPasses (62365e3): deriveEqual(a, a); deriveEqual(b, b); deriveEqual(deriveClone(b), deriveClone(b)):
+// -autoname renames the second call in the first pass; the third call gets its type in the second pass and must
+// be recognised as that call again. Oracle on the two plain calls: a conflict, no duplicate.
+func AutonameAcrossPasses() []*Case {
+	decl := "type A struct{ X int }\n\ntype B struct{ Y string }"
+	typs := []TypeSpec{{Go: "*A", Wire: "(p (nm 0 A (st int)))", Decl: decl}, {Go: "*B", Wire: "(p (nm 0 B (st string)))", Decl: decl}}
+	raw := "package p\n\nfunc Third(b *B) bool { return deriveEqual(deriveClone(b), deriveClone(b)) }\n"
+	var out []*Case
+	// (the file of the waiting call sorts AFTER the plain calls; the other order is defect N2 in
+	// .work/new-defects-names.md and is kept out until it is repaired or listed)
+	for i, fname := range []string{"w_third.go", "x_third.go"} {
+		out = append(out, &Case{ID: fmt.Sprintf("pa%d", i), Stream: "pending", Types: typs, Plugins: Plugins("derive", nil),
+			Variants: AllVariants, NoModel: true, OtherFile: "z_other.go",
+			Files: []FileSpec{{Name: "a.go", Calls: []CallSpec{Call("equal", "deriveEqual", 0), Call("equal", "deriveEqual", 1)}}},
+			Extra: map[string]string{"p/" + fname: raw}})
+	}
+	return out
+}
+
+// ChanC11 (4422487): channel types differing in direction: `chan int` can be passed for `<-chan int`, so the
+// function for the latter serves the former, but one NAME used with both type lists is a conflict whatever
+// the order. All sequences of <= 3 deriveTuple calls over 2 names x {chan int, <-chan int, chan<- int}.
+func ChanC11(r *rand.Rand) []*Case {
+	typs := []TypeSpec{
+		{Go: "chan int", Wire: "(ch int)"},
+		{Go: "<-chan int", Wire: "(chr int)"},
+		{Go: "chan<- int", Wire: "(chs int)"},
+	}
+	plugins := Plugins("derive", nil)
+	names := []string{"deriveTuple", "deriveTuple_"}
+	var out []*Case
+	var rec func(cur []CallSpec)
+	rec = func(cur []CallSpec) {
+		if len(cur) > 0 {
+			c := &Case{ID: fmt.Sprintf("ch%d", len(out)), Stream: "chan", Types: typs, Plugins: plugins, Variants: AllVariants,
+				OtherFile: "z_other.go", Files: []FileSpec{{Name: "a.go", Calls: append([]CallSpec(nil), cur...)}}}
+			out = append(out, c)
+		}
+		if len(cur) == 3 {
+			return
+		}
+		for _, n := range names {
+			for t := range typs {
+				cl := Call("tuple", n, t)
+				cl.Arity = 1
+				rec(append(append([]CallSpec(nil), cur...), cl))
+			}
+		}
+	}
+	rec(nil)
 	return out
 }
